@@ -44,6 +44,9 @@ var templates = map[string]scn.Program{
 	"upstream-close-background": {{{Kind: "open-up", Obj: "u", QoS: 1}, {Kind: "write", Obj: "u", N: 2}, {Kind: "flush", Obj: "u"}, {Kind: "write", Obj: "u"}, {Kind: "close-up", Obj: "u", BG: true}}},
 	"conn-close-after-traffic": {{{Kind: "open-up", Obj: "u", QoS: 1}, {Kind: "write", Obj: "u"}, {Kind: "flush", Obj: "u"}, {Kind: "open-down", Obj: "d", QoS: 1}, {Kind: "read-data", Obj: "d"},
 		{Kind: "meta"}, {Kind: "write", Obj: "u"}, {Kind: "conn-close"}}},
+	// explicit flushes abandoned at every point of their exchange with the flush loop, then ordinary use and a background close
+	"flush-abandoned-then-use": {{{Kind: "open-up", Obj: "u", QoS: 1}, {Kind: "write", Obj: "u", N: 2}, {Kind: "flush-racing", Obj: "u", N: 50}, {Kind: "write", Obj: "u"}, {Kind: "flush", Obj: "u"},
+		{Kind: "flush-racing", Obj: "u", N: 50}, {Kind: "write", Obj: "u"}, {Kind: "state", Obj: "u"}, {Kind: "close-up", Obj: "u", BG: true}}},
 	"upstream-long-lived":          {upLong("u", 1)},
 	"up+down-long-lived":           {upLong("u", 0), downLong("d", 1)},
 	"upstream-reliable":            {up("u", 1)},
@@ -60,11 +63,11 @@ var templates = map[string]scn.Program{
 
 var templateNames = func() []string {
 	return []string{"upstream-reliable", "upstream-unreliable", "downstream", "metadata", "calls", "conn-close-with-open-streams", "up+down", "up+meta+call", "two-ups", "down+down",
-		"upstream-long-lived", "up+down-long-lived", "upstream-close-background", "conn-close-after-traffic"}
+		"upstream-long-lived", "up+down-long-lived", "upstream-close-background", "conn-close-after-traffic", "flush-abandoned-then-use"}
 }()
 
 var behaviours = []string{"answer", "delay", "drop", "sever-before", "sever-after", "mis-reqid", "mis-upalias", "mis-downalias", "mis-source", "mis-callid", "mis-reply",
-	"replace-reqid", "replace-upalias", "replace-source", "replace-callid", "withhold-acks", "sever-outage"}
+	"replace-reqid", "replace-upalias", "replace-source", "replace-callid", "withhold-acks", "sever-outage", "delay-late"}
 
 // Fault is one behaviour applied at one inbound message position.
 type Fault struct {
@@ -132,6 +135,7 @@ func execute(c Case, faults []Fault) *outcome {
 	var mu sync.Mutex
 	withhold := false
 	// sever-outage: the link is cut and every redial is refused until the program has finished
+	var delayed sync.WaitGroup // answers still on their way
 	var refuse atomic.Bool
 	w.FailDial = func(int) bool { return refuse.Load() }
 	b.OnChunk = nil
@@ -160,7 +164,7 @@ func execute(c Case, faults []Fault) *outcome {
 			// bound that governs" a call, and there is none. So in the background-close template the close request itself is always
 			// answered (an earlier version flagged these cases; a repair bounding the request by the close timeout broke the
 			// repository's TestUpstream_Resume_Unreliable and was dropped).
-			if _, isClose := e.Msg.(*message.UpstreamCloseRequest); isClose && c.Template == "upstream-close-background" {
+			if _, isClose := e.Msg.(*message.UpstreamCloseRequest); isClose && (c.Template == "upstream-close-background" || c.Template == "flush-abandoned-then-use") {
 				switch f.Behaviour {
 				case "drop", "replace-reqid", "replace-upalias", "replace-source", "replace-callid":
 					return sim.Default
@@ -173,7 +177,9 @@ func execute(c Case, faults []Fault) *outcome {
 			case "answer":
 				return sim.Default
 			case "delay":
+				delayed.Add(1)
 				go func() {
+					defer delayed.Done()
 					time.Sleep(time.Duration(f.DelayMs) * time.Millisecond)
 					b.HandleDefault(inc, e)
 					if b.After != nil {
@@ -248,6 +254,10 @@ func execute(c Case, faults []Fault) *outcome {
 	withhold = false
 	faults = nil
 	mu.Unlock()
+	// late answers (delayed beyond the caller's deadline) must have come in before the probe: the property is about what the
+	// connection does AFTER them (seeded change C08/m3: an ack for a call whose caller had given up blocked the ack dispatcher)
+	sim.Call(3*time.Second, delayed.Wait)
+	time.Sleep(2 * time.Millisecond)
 	if !closedByProgram {
 		probe := scn.Program{{{Kind: "open-up", Obj: "probe-u", QoS: 1, CtxMs: 3000}, {Kind: "write", Obj: "probe-u", CtxMs: 3000}, {Kind: "flush", Obj: "probe-u", CtxMs: 3000}, {Kind: "close-up", Obj: "probe-u", CtxMs: 3000},
 			{Kind: "open-down", Obj: "probe-d", QoS: 1, CtxMs: 3000}, {Kind: "read-data", Obj: "probe-d", CtxMs: 3000}, {Kind: "close-down", Obj: "probe-d", CtxMs: 3000},
@@ -388,8 +398,13 @@ var sub = ev.Sub[Case]{Name: "faults", Repeats: 5, Q: 20, T: 600,
 		}
 		for i := 0; i < nf; i++ {
 			f := Fault{Behaviour: rapid.SampledFrom(behaviours).Draw(t, "behaviour")}
-			if f.Behaviour == "delay" {
+			if f.Behaviour == "delay-late" {
+				f.Behaviour, f.DelayMs = "delay", c.Cfg.CtxMs+rapid.IntRange(10, c.Cfg.CtxMs).Draw(t, "lateby")
+			} else if f.Behaviour == "delay" {
 				f.DelayMs = rapid.IntRange(1, c.Cfg.CtxMs*8/10).Draw(t, "delay")
+				if rapid.IntRange(0, 2).Draw(t, "late") == 0 { // the answer comes after the caller has given up
+					f.DelayMs = c.Cfg.CtxMs + rapid.IntRange(10, c.Cfg.CtxMs).Draw(t, "lateby")
+				}
 			}
 			c.Faults = append(c.Faults, f)
 			c.PosFrac = append(c.PosFrac, rapid.IntRange(0, 999).Draw(t, "posfrac"))
@@ -421,6 +436,9 @@ func TestEnumerate(t *testing.T) {
 					f := Fault{Pos: pos, Behaviour: bh}
 					if bh == "delay" {
 						f.DelayMs = 60
+					}
+					if bh == "delay-late" {
+						f.Behaviour, f.DelayMs = "delay", cfg.CtxMs+100
 					}
 					total++
 					if !sub.One(t, Case{Template: tn, Faults: []Fault{f}, Cfg: cfg}) {
